@@ -84,7 +84,7 @@ def gen_table(rng, maxn=10, streams=("v1", "v2"), axes=None, index_kind=None, al
     if "lat" in axes:
         ax["lat"] = [F(40) + F(i, 64) for i in range(n)]
         ax["lon"] = [F(-70) + F(rng.randint(0, 8), 64) for i in range(n)]
-    index_kind = index_kind or rng.choice(["range", "range", "shifted", "permuted", "labels"])
+    index_kind = index_kind or rng.choice(["range", "range", "shifted", "permuted", "labels", "dup"])
     if n >= 3 and rng.random() < 0.2:
         # rows not in time order (a back-filled batch appended at the end): distinct instants, any order
         k = rng.randint(1, n - 1)
@@ -106,6 +106,10 @@ def table_index(tab):
         return [100 + i for i in range(n)]
     if k == "permuted":
         return [(i * 7 + 3) % max(n, 1) if n and np.gcd(7, n) == 1 else n - 1 - i for i in range(n)]
+    if k == "dup":
+        # chunks concatenated without ignore_index: the row labels repeat (0..m-1, 0..m-1, …)
+        m = max(2, (n + 1) // 2)
+        return [i % m for i in range(n)]
     return [f"r{i}" for i in range(n)]
 
 
